@@ -156,7 +156,8 @@ def suite_dispatch(drv, tier):
                     fn = s._core._get_distribute_func()
                     l, b = s._core._log_like(X)
                 how = "direct" if vec else ("map" if fn is map else "poolMap")
-                ok_vals = np.array_equal(l, np.array([CountingLike.f(r) for r in X])) and like.n == 3
+                # (with a real process pool the counter is advanced in the workers, not here)
+                ok_vals = np.array_equal(l, np.array([CountingLike.f(r) for r in X])) and (like.n == 3 or (isinstance(pool, int) and pool > 1))
                 if not ok_vals:
                     how += ":wrong-values"
             except Exception as e:  # noqa
